@@ -168,7 +168,11 @@ def _specs(draw):
 @st.composite
 def _typing_specs(draw):
     name = draw(st.sampled_from(kits.all_class_names()))
-    inst = draw(kits.instance_spec(name, max_star=20, max_b=25, min_b=2))
+    # half of the records carry one mutation (substitution, inserted extra
+    # site of the cutter, deletion, ...): accepted or not, every spelling of
+    # the same letters must get the same answer
+    inst = draw(kits.instance_spec(name, max_star=20, max_b=25, min_b=2,
+                                   n_mut=(1, 1) if draw(st.booleans()) else (0, 0)))
     spec = {"kind": "typing", "inst": inst, "cases": [draw(gen.case_masks())]}
     if draw(st.booleans()):
         spec["npos"] = draw(st.lists(st.integers(0, 400), min_size=1, max_size=4))
